@@ -177,3 +177,16 @@ package absnfs
 //@ loop 2 invariant forall(o, *TokenBucket, tbSame(o), o.tokens)
 //@ loop 2 invariant forall(o, *TokenBucket, held(o.mu) == 0, held(o.mu))
 //@ loop 2 invariant forall(k, string, has(pol.limiters, k) ==> old(has(pol.limiters, k)) && pol.limiters[k] == old(pol.limiters[k]), pol.limiters[k])
+
+// the configured per-operation limits are the ones enforced: rates in operations per second (the mount
+// limit is configured per minute), bursts as documented
+//@ func NewPerOperationLimiter
+//@ prop C18
+//@ ensures [configured-rates] result != nil && fresh(result) && result.rates != nil && has(result.rates, OpTypeMount) && result.rates[OpTypeMount] == real(config.MountOpsPerMinute) / 60.0 && has(result.rates, OpTypeReadLarge) && result.rates[OpTypeReadLarge] == real(config.ReadLargeOpsPerSecond) && has(result.rates, OpTypeWriteLarge) && result.rates[OpTypeWriteLarge] == real(config.WriteLargeOpsPerSecond) && has(result.rates, OpTypeReaddir) && result.rates[OpTypeReaddir] == real(config.ReaddirOpsPerSecond)
+//@ ensures [configured-bursts] result.bursts != nil && result.bursts[OpTypeMount] == 2 && result.bursts[OpTypeReadLarge] == 10 && result.bursts[OpTypeWriteLarge] == 5 && result.bursts[OpTypeReaddir] == 5
+//@ ensures [empty] result.limiters != nil && len(result.limiters) == 0 && result.cleanupInterval == config.CleanupInterval
+
+//@ func NewRateLimiter
+//@ prop C18 C16
+//@ partial
+//@ ensures [configured] result != nil && fresh(result) && result.config == config
